@@ -5,7 +5,8 @@
    every vector; nothing here is a sample.  Two more property files: Props/C20_mc.v (determinant of
    the triangular factor, mathcomp) and Props/C20_logdet.v (its logarithm, reals). *)
 From CV Require Import Base.Tac Base.Cmp Base.LinAlg Base.QcLin Model.C20_Diff Model.C20_Spec
-  Proofs.C20_Lin Proofs.C20_Stencil Proofs.C20_Null Proofs.C20_Gmrf Proofs.C20_Gmrf2d Proofs.C20_Mrf.
+  Proofs.C20_Lin Proofs.C20_Stencil Proofs.C20_Null Proofs.C20_Gmrf Proofs.C20_Gmrf2d Proofs.C20_Mrf
+  Proofs.C20_Nullity Proofs.C20_Repaired.
 From Coq Require Import QArith Qcanon.
 Local Open Scope Z_scope.
 
@@ -305,6 +306,74 @@ Theorem C20_logdet_bigdim_refuted :
     ~ (d_reg * chol_shift b == d_true)%Q.
 Proof. exact gmrf_logdet_bigdim_refuted. Qed.
 Print Assumptions C20_logdet_bigdim_refuted.
+
+(* ------------------------------------------------------------------------------------------------
+   7. The TRUE null space of every field, with an explicit basis (no guard by the rank rule):
+      1-d: [] | [ones] | [ones; ramp];  2-d (Kronecker structure): [] | [ones] | the four bi-affine
+      images 1, r, c, r*c of order 2 / neumann.  The rank over Q follows in Props/C20_rank.v.
+   ------------------------------------------------------------------------------------------------ *)
+Theorem C20_nullity_1d : forall dim b order g,
+  gmrf_init 1 dim b order = Some g ->
+  periodic_too_small (eff_order order) (eff_bc order b) dim = false ->
+  null_basis (g_prec g) dim (null_basis_1d order b dim).
+Proof. exact gmrf_nullity_1d. Qed.
+Print Assumptions C20_nullity_1d.
+
+Theorem C20_nullity_2d : forall N b order g,
+  gmrf_init 2 (N * N) b order = Some g ->
+  periodic_too_small (eff_order order) (eff_bc order b) N = false ->
+  null_basis (g_prec g) (N * N) (null_basis_2d order b N).
+Proof. exact gmrf_nullity_2d. Qed.
+Print Assumptions C20_nullity_2d.
+
+(* any matrix whose null space is "all rows and all columns of the image affine" has the basis 1, r, c, r*c *)
+Theorem C20_nullspace_biaffine_basis : forall M N, (2 <= N)%nat ->
+  (forall X, image N X ->
+     (zmatvec M (concat X) = zeros (length M) <->
+      Forall is_affine X /\ (forall c, (c < N)%nat -> is_affine (col 0 X c)))) ->
+  null_basis M (N * N) [flat N f_one; flat N f_row; flat N f_col; flat N f_prod].
+Proof. exact nb_biaffine. Qed.
+Print Assumptions C20_nullspace_biaffine_basis.
+
+(* ------------------------------------------------------------------------------------------------
+   8. The two proposed repairs (model variants the harness selects when the tree contains them)
+   ------------------------------------------------------------------------------------------------ *)
+(* fixes/C20_periodic_accumulate.diff: same matrices outside the finding, and the wrap-around stencil
+   for EVERY size that is built -- the guard of C20_stencil_all disappears *)
+Theorem C20_repaired_patches_same : forall order b n, periodic_too_small order b n = false ->
+  fd_matrix_acc order b n = fd_matrix order b n.
+Proof. exact fd_matrix_acc_eq. Qed.
+Print Assumptions C20_repaired_patches_same.
+
+Theorem C20_stencil_all_repaired : forall order b n x D,
+  fd_matrix_acc order b n = Some D -> length x = n -> stencil_spec order b x = Some (zmatvec D x).
+Proof. exact stencil_all_acc. Qed.
+Print Assumptions C20_stencil_all_repaired.
+
+(* fixes/C20_gmrf_rank_rule.diff: the reported rank is dim - nullity for every field, no guard *)
+Theorem C20_gmrf_rank_repaired_1d : forall dim b order g,
+  gmrf_init_gen fd_matrix true 1 dim b order = Some g ->
+  periodic_too_small (eff_order order) (eff_bc order b) dim = false ->
+  null_basis (g_prec g) dim (null_basis_1d order b dim) /\
+  (g_rank g + length (null_basis_1d order b dim) = dim)%nat.
+Proof. exact gmrf_rank_fixed_1d. Qed.
+Print Assumptions C20_gmrf_rank_repaired_1d.
+
+Theorem C20_gmrf_rank_repaired_2d : forall N b order g,
+  gmrf_init_gen fd_matrix true 2 (N * N) b order = Some g ->
+  periodic_too_small (eff_order order) (eff_bc order b) N = false ->
+  null_basis (g_prec g) (N * N) (null_basis_2d order b N) /\
+  (g_rank g + length (null_basis_2d order b N) = N * N)%nat.
+Proof. exact gmrf_rank_fixed_2d. Qed.
+Print Assumptions C20_gmrf_rank_repaired_2d.
+
+(* non-vacuity of the new hypotheses *)
+Example C20_example_deepening :
+  (exists g, gmrf_init 2 (3 * 3) Neumann 2 = Some g /\ g_rank g = 8%nat /\ length (null_basis_2d 2 Neumann 3) = 4%nat) /\
+  (exists g, gmrf_init_gen fd_matrix true 2 (3 * 3) Neumann 2 = Some g /\ g_rank g = 5%nat) /\
+  fd_matrix_acc 2 Periodic 2 = Some [[-2; 2]; [2; -2]; [-2; 2]; [2; -2]] /\
+  fd_matrix 2 Periodic 2 = Some [[-1; 2]; [2; -1]; [-1; 2]; [2; -1]].
+Proof. repeat split; try (eexists; repeat split; vm_compute; reflexivity); vm_compute; reflexivity. Qed.
 
 (* non-vacuity: concrete operators and fields meet the hypotheses *)
 Example C20_example :
